@@ -17,7 +17,7 @@ import (
 // Oracle: gen.ItemSpec.Text, written from the statement; which interfaces a
 // generated type implements is known from its construction.
 
-const c01Fam = gen.FAscii | gen.FNewline | gen.FCR | gen.FWide | gen.FCombining | gen.FZero | gen.FEmoji | gen.FCSV | gen.FHTML | gen.FMD | gen.FInvalid | gen.FSGR | gen.FNUL
+const c01Fam = gen.FAscii | gen.FNewline | gen.FCR | gen.FWide | gen.FCombining | gen.FZero | gen.FEmoji | gen.FCSV | gen.FHTML | gen.FMD | gen.FInvalid | gen.FSGR | gen.FNUL | gen.FEdge
 
 func sameItem(a, b interface{}) bool {
 	if a == nil || b == nil {
